@@ -20,8 +20,8 @@ and datagrams satisfy the quantifier's restrictions (`WFHistory`: well-formed br
 browser's creation well-formed — own pointer records exact, foreign pointer records allowed) and **for a browser created at any
 time**: since the D23 repair (/repo 1a6b142) the creation purges the expired records before it registers and replays
 (`Browser.createWith`, generated leaf `add_listener_purges_first`), so the quantifier's "no expired-but-unpurged pointer record at
-creation" is a fact about the code (`fresh_after_creation_purge`), not a hypothesis.  What remains outside: the two clock readings of a
-creation (D23b, `example` below).  The purge step uses the provenance invariant `CachedWF` (every cached pointer record is spelled as
+creation" is a fact about the code (`fresh_after_creation_purge`), not a hypothesis; purge and replay use one reading of the clock
+(D23b repair, c7503f0; generated leaf `add_listener_replay_now`; the two-readings window is kept as a before-fix `example`).  The purge step uses the provenance invariant `CachedWF` (every cached pointer record is spelled as
 some datagram record was), itself proved along every history (`cachedWF_after`). -/
 namespace Zc
 
@@ -513,9 +513,10 @@ def browserRunAtWith (purgesFirst : Bool) (pre : List Event) (tPurge tReplay : M
   | .ok o => evs.foldl (BrowserRun.step lower possible) { cache := o.cache, browser := o.browser, batches := [o.callbacks] }
   | .error _ => evs.foldl (BrowserRun.step lower possible) { cache := cacheAfter lower pre, browser := { types := types }, batches := [[]] }
 
-/-- the code as it is (`purgesFirst` = the generated leaf), the creation happening at one instant `t0` -/
+/-- the code as it is: the creation reads the clock once, `t0`; the purge comes first (leaf `add_listener_purges_first`) and the replay
+uses the purge's reading (leaf `add_listener_replay_now`) -/
 def browserRunFrom (pre : List Event) (t0 : Ms) (types : List String) (evs : List Event) : BrowserRun :=
-  browserRunAtWith lower possible Gen.Cache.add_listener_purges_first pre t0 t0 types evs
+  browserRunAtWith lower possible Gen.Cache.add_listener_purges_first pre t0 (Gen.Cache.add_listener_replay_now t0) types evs
 
 /-- the Added/Removed callbacks delivered for `(t, a)` (instance compared case-insensitively), in order -/
 def changesFor (batches : List (List Callback)) (t a : String) : List Change :=
@@ -1221,7 +1222,7 @@ theorem runInv_run {types : List String} {pre : List Event} {evs : List Event} (
     (fun q e hq _ => fresh_after_creation_purge lower pre t0 q e hq)
   obtain ⟨l, hcr⟩ := create_ok lower possible pre t0 types
   unfold browserRunFrom browserRunAtWith
-  rw [add_listener_purges_first_eq, hcr]
+  rw [add_listener_purges_first_eq, add_listener_replay_now_eq, hcr]
   simp only []
   apply runInv_fold lower possible hwf.wfTypes evs (pre ++ [Event.purge t0]) _ hpre _ hevs
   refine ⟨rfl, hp, ht, fun t htt a => ?_, fun t htt a => ?_⟩
@@ -1292,10 +1293,11 @@ example :
        reportedLive id run.batches "_x._tcp.local." "a._x._tcp.local." = true
        ∧ run.batches = [[], [⟨.added, "_x._tcp.local.", "a._x._tcp.local."⟩]]) := by decide
 
-/-- **D23b** (residual; outside the quantifier and outside `browserRunFrom`, whose creation happens at one instant): the code
-reads the clock twice during a creation — the purge in `async_add_listener` and the replay in `_async_update_matching_records`.
-If the clock ticks in between while a pointer record runs out (purge at 1 125 999, replay at 1 126 000 = the record's deadline),
-the record is neither purged nor replayed, and the next announcement is a refresh of the stale entry: never Added. -/
+/-- **D23b, before its repair** (c7503f0): the first D23 repair read the clock twice during a creation — the purge in
+`async_add_listener` and the replay in `_async_update_matching_records`.  If the clock ticked in between while a pointer record ran
+out (purge at 1 125 999, replay at 1 126 000 = the record's deadline), the record was neither purged nor replayed, and the next
+announcement was a refresh of the stale entry: never Added.  Now the replay is handed the purge's reading
+(`add_listener_replay_now`), which is what `browserRunFrom` runs. -/
 example :
     let p : Rec := ⟨"_x._tcp.local.", 12, 1, false, 1125, 0, .ptr "a._x._tcp.local."⟩
     let run := browserRunAtWith id (fun n => [n]) true [.datagram 1000 [p]] 1125999 1126000 ["_x._tcp.local."] [.datagram 1126100 [p]]
